@@ -30,6 +30,7 @@ const (
 	ruleAddress     = "client-address-only-after-accepted-auth"
 	ruleIPCPAck     = "ipcp-acknowledged-only-after-accepted-auth"
 	ruleForeign     = "foreign-mac-frame-leaves-session-unchanged"
+	ruleTakeover    = "foreign-mac-never-obtains-a-live-sessions-id"
 )
 
 type sessMon struct {
@@ -58,9 +59,91 @@ func (m *sessMon) histClass() string {
 type monitor struct {
 	c *caseCtx
 	s map[string]*sessMon
+	// ids is the monitor's own ownership record, taken from the wire: session id
+	// carried by a PADS -> the session created for the station whose PADR it answers.
+	ids map[uint16]*sessMon
 }
 
-func newMonitor(c *caseCtx) *monitor { return &monitor{c: c, s: map[string]*sessMon{}} }
+func newMonitor(c *caseCtx) *monitor {
+	return &monitor{c: c, s: map[string]*sessMon{}, ids: map[uint16]*sessMon{}}
+}
+
+// pads judges the PADS frames answering a PADR from src against the ownership
+// record: a session id is handed to a station only while no session of another
+// station holds it and is displaced by it (the new station's frames would then
+// act on the id of a session it does not own, whose owner is cut off). 'Live'
+// is read as: the very session object (unique key) recorded for the id was in
+// the table just before the frame; 'displaced' as: it is not there after it.
+func (m *monitor) pads(s sym, src string, before, after snapshot, em []outFrame, judge bool) {
+	ob := m.c.obs
+	for _, o := range em {
+		if !o.Disc || o.Code != 0x65 || o.Dst != src {
+			continue
+		}
+		x := o.SID
+		prev := m.ids[x]
+		prevLive := false
+		if prev != nil {
+			_, prevLive = before.Sess[prev.key]
+		}
+		// evidence: where the id counter stood (harness-side prediction, never judged)
+		if at := m.c.naive; at >= 0 && judge {
+			onLive := false
+			if h := m.ids[uint16(at)]; h != nil {
+				_, onLive = before.Sess[h.key]
+			}
+			next1Live := false
+			if h := m.ids[1]; h != nil {
+				_, next1Live = before.Sess[h.key]
+			}
+			switch {
+			case at == 0 && next1Live:
+				ob.count("padr_with_counter_at_reserved_id_0_and_id_1_live", 1)
+			case at == 0:
+				ob.count("padr_with_counter_at_reserved_id_0_and_id_1_free", 1)
+			case onLive:
+				ob.count("padr_with_counter_on_a_live_sessions_id", 1)
+			}
+			if uint16(at) != x {
+				ob.count("pads_id_differs_from_counter(skipped reserved/occupied ids)", 1)
+			}
+			if at == 0 || int(x) < at {
+				ob.count("padr_answered_across_the_counter_wrap", 1)
+			}
+		}
+		m.c.naive = int(x + 1)
+		if judge {
+			ob.count("pads_judged_against_ownership_record", 1)
+			if prev != nil && !prevLive {
+				ob.count("pads_reusing_the_id_of_a_terminated_session", 1)
+			}
+		}
+		if prevLive {
+			_, prevStill := after.Sess[prev.key]
+			if prev.owner != src && prevStill {
+				// RFC 2516 identifies a session by the id together with the two Ethernet
+				// addresses: an implementation that keeps both sessions is not judged
+				if judge {
+					ob.count("live_id_handed_to_second_station_both_sessions_kept(not judged)", 1)
+				}
+			} else if prev.owner != src {
+				if judge {
+					v := before.Sess[prev.key]
+					run.Violation("pppoe.Server.handlePADR", ruleTakeover, "padr-answered-with-live-session-id-of-another-station",
+						fmt.Sprintf("PADR from %s was answered with PADS carrying session id %d, which the monitor records as handed to %s for a session that was live (%s): frames of %s now address that id", peerOf(src), x, peerOf(prev.owner), v.brief(), peerOf(src)),
+						m.witness(s.String(), map[string]any{"session": x, "id_recorded_for": prev.owner, "id_now_handed_to": src, "table_before": before.brief(), "table_after": after.brief()}))
+				}
+			} else if judge {
+				ob.count("own_live_id_reissued_to_same_station(not judged)", 1)
+			}
+		}
+		for k, v := range after.Sess {
+			if _, was := before.Sess[k]; !was && v.ID == x {
+				m.ids[x] = m.s[k]
+			}
+		}
+	}
+}
 
 // decision reports what the RADIUS side did with the exchange named user.
 func (m *monitor) decision(user string) string {
@@ -141,6 +224,9 @@ func (m *monitor) frame(s sym, user string, before, after snapshot, em []outFram
 		m.register(after, src)
 	} else {
 		m.register(after, "")
+	}
+	if s.K == kPADR {
+		m.pads(s, src, before, after, em, judge)
 	}
 	target, hasTarget := before.byID(s.ID)
 	if s.K == kPADI || s.K == kPADR {
